@@ -27,6 +27,10 @@ Proof. unfold src_t_stop, t_stop_q, zq. same_q. Qed.
 Lemma k_obs_length g t0 : src_t_stop t0 (T g) (dt g) == t0 + src_obs_length (T g) (dt g).
 Proof. unfold src_t_stop, src_obs_length. same_q. Qed.
 
+(* ts_ext = the frame's time axis plus one further step, whatever its origin *)
+Lemma k_ts_ext_last ts_last d : src_ts_ext_last ts_last d == ts_last + d.
+Proof. unfold src_ts_ext_last. same_q. Qed.
+
 Theorem k05_all g fmin d f j a b t0 : ~ d == 0 -> ~ dt g == 0 -> ~ zq (T g) == 0 ->
   src_get_index fmin d f = get_index_q fmin d f /\ src_get_frequency fmin d j == get_frequency_q fmin d j /\
   src_get_drift_rate (df g) (dt g) (T g) a b == drift_rate_q g a b /\ src_chi2_df (df g) (dt g) = chi2_df_q g /\
